@@ -82,14 +82,21 @@ class Result(object):
 
     def __init__(self):
         self.violations = []  # list of case dicts (JSON-serialisable), each with key "what"
+        self._per_sig = {}
         self.coverage = {}
         self.assumptions = []
         self.notes = []
 
-    def add_violation(self, case, limit=40):
-        if len(self.violations) < limit:
-            self.violations.append(case)
+    def add_violation(self, case, per_signature=4, limit=80):
+        """Keeps at most `per_signature` cases per distinct signature (so that one frequent failure
+        cannot crowd out a different one) and `limit` overall; counts everything."""
         self.coverage["violating_cases_total"] = self.coverage.get("violating_cases_total", 0) + 1
+        key = json.dumps(case.get("signature"), sort_keys=True, default=str)
+        n = self._per_sig.get(key, 0)
+        if n >= per_signature or len(self.violations) >= limit:
+            return
+        self._per_sig[key] = n + 1
+        self.violations.append(case)
 
 
 # --------------------------------------------------------------------------- pool
